@@ -173,6 +173,8 @@ fn main() {
     }
     sut::force_statics();
     let code = match a.prop.as_str() {
+        "C05" => dispatch(&props::c05::C05, &a),
+        "C06" => dispatch(&props::c06::C06, &a),
         "C10" => dispatch(&props::c10::C10, &a),
         other => harness_error(&format!("property {} has no check in this simulator", other)),
     };
